@@ -28,6 +28,7 @@
 -/
 import Proofs.C03Effect
 import Proofs.C03Pass
+import Proofs.C03Pass2
 
 namespace TM
 open C02 C03
@@ -92,6 +93,49 @@ theorem C03_dispatch_global_only (cfg : NCfg) (sub : NSub) (sc : Script) (x : Ct
              | some b => [(k, b)]
              | none => []) s2) :=
   ten_global_only cfg sub sc x ev hno k v hc s
+
+/-! ### P3, P2 (first half), and what a pass returns -/
+
+/-- **P3 for one pass of `trigger_nested`**: read the offers off the ghost segment (`sOffers`): nothing of the same
+state or of an ancestor is offered after a transition executed (`sAfter`), no state is offered before one of its
+descendants and the candidates of one state come in definition order (`sOrder`) -/
+theorem C03_P3_pass (cfg : NCfg) (sub : NSub) (sc : Script) (hR : NoRaise sc) (hC : NoCmds sc)
+    (scope : Scope) (x : Ctx) (ev : Nat) (ts : List NTrans) (ps done : List SPath) (s s' : NSt)
+    (hord : ps.Pairwise (fun a b => properPrefix a b = false)) (hnd : ps.Nodup)
+    (h : (tnLoop sub sc cfg scope x ev ts ps done s).state? = some s') :
+    ∃ seg, s'.glog = s.glog ++ seg ∧ sAfter (sOffers ts seg []) = true ∧ sOrder (sOffers ts seg []) = true :=
+  tnLoop_p3 cfg sub sc hR hC scope x ev ts ps done s s' hord hnd h
+
+/-- **completeness of a pass**: every listed state with candidates that is not in the initial `done` set is offered,
+unless a transition of that state or of a descendant executed -/
+theorem C03_P3_complete_pass (cfg : NCfg) (sub : NSub) (sc : Script) (hR : NoRaise sc) (hC : NoCmds sc)
+    (scope : Scope) (x : Ctx) (ev : Nat) (ts : List NTrans) (ps done : List SPath) (s s' : NSt)
+    (h : tnLoop sub sc cfg scope x ev ts ps done s = .ok () s') :
+    ∃ seg, s'.glog = s.glog ++ seg ∧
+      ∀ p ∈ ps, p ∉ done → (ncandidates scope.pre ev ts p).isEmpty = false →
+        (∃ o ∈ sOffers ts seg [], o.src = p) ∨ (∃ o ∈ sOffers ts seg [], o.executed = true ∧ isPrefix p o.src = true) :=
+  tnLoop_complete cfg sub sc hR hC scope x ev ts ps done s s' h
+
+/-- **what a pass returns** (P5): the outcome of the LAST offered state, not "some transition executed" — the
+two agree exactly when no state is offered and blocked after an execution (`C03_counterexample_result_overwritten`) -/
+theorem C03_P5_pass_result (cfg : NCfg) (sub : NSub) (sc : Script) (hR : NoRaise sc) (hC : NoCmds sc)
+    (scope : Scope) (x : Ctx) (ev : Nat) (ts : List NTrans) (ps done : List SPath) (s s' : NSt)
+    (h : tnLoop sub sc cfg scope x ev ts ps done s = .ok () s') :
+    ∃ seg, s'.glog = s.glog ++ seg ∧
+      s'.result = (match (sOffers ts seg []).getLast? with
+        | some o => some o.executed
+        | none => s.result) :=
+  tnLoop_result cfg sub sc hR hC scope x ev ts ps done s s' h
+
+/-- **P2, first half, for machine-level declarations**: every transition executes from a state that was active when
+the event began (the second half — "and has not been exited since" — is false: `C03_counterexample_stale_source`) -/
+theorem C03_P2_source_was_active (cfg : NCfg) (sub : NSub) (sc : Script) (hR : NoRaise sc) (hC : NoCmds sc)
+    (hq : cfg.queued = false) (hno : cfg.states.noEvents = true)
+    (qmax ev : Nat) (s s' : NSt) (hlen : s.conf.len = 1) (hcok : ConfOK cfg.states s.conf = true) (hidle : s.queue = [])
+    (h : (napiTrigger sub sc cfg qmax ev s).state? = some s') :
+    ∃ seg, s'.glog = s.glog ++ seg ∧
+      ∀ p ∈ execSources ((alookup ev cfg.events).getD []) seg, p ∈ s.conf.nodes :=
+  C03_P2_active_at_start cfg sub sc hR hC hq hno qmax ev s s' hlen hcok hidle h
 
 /-! ### P5: an event nobody handles -/
 
